@@ -170,6 +170,7 @@ class Interp:
         self._lemmas_in_facts = 0
         self.stats = {"branches_sym": 0, "branches_pruned": 0, "obligations_folded": 0, "stmts": 0, "calls": 0}
         self.int_bounds = {}       # term id -> (lo, hi)
+        self._alive = []           # terms whose ids are used as dictionary keys must stay alive (ids are recycled)
         self.encoded = {}          # qualified function name -> source hash
         self.where = ""
         self.max_loop = 4096
@@ -523,7 +524,8 @@ class Interp:
             if a.same_view(b):
                 return a
             if a.shape != b.shape:
-                raise Unsupported(f"merge of arrays with shapes {a.shape} / {b.shape}")
+                # a stale binding from an earlier loop iteration meets a new one: only an error if it is read afterwards
+                return Conflict(f"arrays with shapes {a.shape} / {b.shape}")
             ca = [st_t.heap[a.bufid][p] for p in a.positions()]
             cb = [st_f.heap[b.bufid][p] for p in b.positions()]
             cells = [x if same(x, y) else self.A.ite(c, x, y) for x, y in zip(ca, cb)]
@@ -1063,6 +1065,7 @@ class Interp:
         elif z3.is_app_of(v, z3.Z3_OP_TO_REAL) or z3.is_app_of(v, z3.Z3_OP_TO_INT):
             res = self.bounds_of(v.arg(0), depth + 1)
         self.int_bounds[v.get_id()] = res
+        self._alive.append(v)
         return res
 
     def _loop(self, st, s, _unused, items, while_test=None):
@@ -1172,6 +1175,8 @@ class Interp:
 
     def use(self, st, v):
         """Strip a Partial on use, recording the definedness obligation."""
+        if isinstance(v, Conflict):
+            raise Unsupported(f"use of a value merged from incompatible {v.what}")
         if isinstance(v, Partial):
             self.oblige(st, "undefined-read", v.defined, f"use of {v.what}")
             return v.value
@@ -1682,6 +1687,11 @@ class Interp:
 
     def carr_get(self, st, c, k):
         return self.lib.carr_get(self, st, c, k)
+
+
+class Conflict:
+    def __init__(self, what):
+        self.what = what
 
 
 class _NoFast(Exception):
